@@ -183,6 +183,26 @@ def check_parts(pid, parts, tier, seed, replay=None, main=None):
             tot['closed'] = tot['closed'] and bool(clo_stats.get('closed', False))
 
         model, impls = run_pair(spec, cases, drivers, work) if okr else ({}, [{} for _ in drivers])
+        # further executable models of the same component (e.g. a pointer-level refinement): they must
+        # produce the primary model's trace on every case
+        for extra in getattr(spec, 'extra_models', ()):
+            if not okr:
+                break
+            em = core.run_sharded(core.runner_cmd(extra), cases, work, 'x')
+            bad_x = [c for c in cases if model.get(c.name) and model[c.name][-1] != 'precond'
+                     and em.get(c.name) != model.get(c.name)]
+            if bad_x:
+                c = min(bad_x, key=lambda c: len(c.ops))
+                rp = core.replay_path(pid, nrep)
+                nrep += 1
+                with open(rp, 'w') as f:
+                    f.write('# the two Coq models %s and %s of the same code disagree on %d cases (first below)\n' % (
+                        spec.component, extra, len(bad_x)))
+                    f.write('# part: %s\n' % spec.component)
+                    f.write(c.text())
+                    f.write('# %s:\n' % spec.component + ''.join('#   %s\n' % l for l in model.get(c.name, [])))
+                    f.write('# %s:\n' % extra + ''.join('#   %s\n' % l for l in em.get(c.name, [])))
+                violations.append((rp, 'models %s and %s disagree' % (spec.component, extra), False))
 
         # 4. compare + oracle
         mism = []
